@@ -1038,6 +1038,9 @@ def check_solver_factories(ctx, state, n, rng):
             H = nprng.integers(-1, 2, size=(n, n)).astype(float)
             M = sp.csr_matrix(H @ H.T + n * np.eye(n))
             L, Y = solve(*condense(A, M, D=Darr), solver=solver_eigen_scipy_sym())
+            if np.asarray(Y).shape[0] != n:
+                ctx.fail('solve_eigen:not-expanded', f'solve(*condense(A, M, D=D)) returns eigenvectors of length {np.asarray(Y).shape[0]}, not {n}', rep)
+                return
             res = 0.0
             for j in range(len(L)):
                 r = (A @ Y[:, j] - L[j] * (M @ Y[:, j]))[I]
@@ -1108,6 +1111,10 @@ def check_eigen_pipeline(ctx, state, n, rng):
         w, V = la.eigh(Ac.toarray(), Mc.toarray())
         return w, V
     L, Y = solve(*condense(A, M, D=Darr), solver=dense_solver)
+    if np.asarray(Y).shape[0] != n:
+        ctx.fail('solve_eigen:not-expanded', f'solve(*condense(A, M, D=D)) returns eigenvectors of length {np.asarray(Y).shape[0]}, not {n}',
+                 {'n': n, 'D': D})
+        return
     I = [i for i in range(n) if i not in D]
     res = 0.0
     for j in range(len(L)):
